@@ -117,6 +117,7 @@ def showErr : DeErr → String
   | .unknownVariant s => s!"unknownvariant:{hexOrDash s}"
   | .invalidType => "invalidtype"
   | .invalidLength => "invalidlength"
+  | .rejected => "rejected"
 
 /-- root type, and how the request value is wrapped (history.json is a Vec of entries) -/
 def root : String → Option (Ty × Ty × (RVal → RVal))
@@ -129,7 +130,7 @@ def roundtrip (t : Ty) (v : RVal) : String :=
   let j := ser t v
   let c := canon j
   match de t j with
-  | .ok v' => s!"ok {c} de=ok same={if decide (v' = v) && canon (ser t v') == c then 1 else 0}"
+  | .ok v' => s!"ok {c} de=ok same={if decide (v' = v) && canon (ser t v') == c then 1 else 0} load=ok"
   | .error e => s!"ok {c} de={showErr e}"
 
 def name (b : Bytes) : String := String.ofList (b.map (fun c => Char.ofNat c.toNat))
